@@ -10,6 +10,8 @@ import json, os, subprocess, sys, tempfile, shutil, re
 
 ENV = dict(os.environ, GOFLAGS="-mod=mod", GOPROXY="off", GOSUMDB="off", GOTOOLCHAIN="local", GOWORK="off")
 VERIF = "/verif"
+import threading
+PORTS = threading.Lock()  # the suite and the demos use fixed TCP ports: one at a time
 
 
 def sh(cmd, cwd=None, timeout=900, env=None):
@@ -38,7 +40,9 @@ def evaluate(seed):
     try:
         sh(f"rsync -a --exclude .git /repo/ {d}/")
         shutil.copy(demo, os.path.join(d, "zz_seed_demo_test.go"))
+        PORTS.acquire()
         rc0, out0 = sh(f"go test -vet=off -count=1 -timeout 120s -run '^{test}$' {flags} .", cwd=d)
+        PORTS.release()
         clean_pass = rc0 == 0
         rc, out = sh(f"git init -q . ; git apply {patch}", cwd=d)
         if rc != 0:
@@ -52,14 +56,18 @@ def evaluate(seed):
             return meta
         fails = 0
         runs = int(meta.get("demo_runs", 1))
+        PORTS.acquire()
         for _ in range(runs):
             rc1, out1 = sh(f"go test -vet=off -count=1 -timeout 120s -run '^{test}$' {flags} .", cwd=d)
             if rc1 != 0:
                 fails += 1
         os.remove(os.path.join(d, "zz_seed_demo_test.go"))
-        rc2, out2 = sh("go test -vet=off -count=1 -timeout 400s .", cwd=d, timeout=500)
-        if rc2 != 0 and "TestRedisUnblock" in out2:
-            rc2, out2 = sh("go test -vet=off -count=1 -timeout 400s .", cwd=d, timeout=500)  # known flaky test of the repo
+        for attempt in range(4):  # TestRedisUnblock of the repo is flaky (hangs) on the unchanged tree as well
+            rc2, out2 = sh("go test -vet=off -count=1 -timeout 90s .", cwd=d, timeout=150)
+            if rc2 == 0:
+                break  # the repo's suite has flaky tests (TestRedisUnblock hangs, TestRedisBLMoveStress shares a rand.Rand): a deterministic failure fails all four attempts
+        PORTS.release()
+        meta["suite_failure_tail"] = "" if rc2 == 0 else out2[-600:]
         # run the checks against the patched copy
         sv = tempfile.mkdtemp(prefix="seedverif.", dir="/tmp")
         shutil.copy(os.path.join(VERIF, "known_findings.json"), sv)
